@@ -58,7 +58,8 @@ class IdealPAKE:
 
     def start(self):
         self.n = self.w.next_pake()
-        self.out = b"PAKE|" + self.pw.hex().encode() + b"|" + self.id.hex().encode() + b"|%d" % self.n
+        self.w.pake_table[self.n] = (self.pw, self.id)
+        self.out = b"PAKE|%d" % self.n
         return self.out
 
     def finish(self, msg):
@@ -67,12 +68,13 @@ class IdealPAKE:
         if msg == self.out:
             raise PakeError("reflection thwarted")
         parts = msg.split(b"|")
-        if len(parts) != 4 or parts[0] != b"PAKE":
+        if len(parts) != 2 or parts[0] != b"PAKE" or not parts[1].isdigit() or int(parts[1]) not in self.w.pake_table:
             raise PakeError("not a group element")
-        theirs = (parts[1], parts[2])
-        mine = (self.pw.hex().encode(), self.id.hex().encode())
+        pw2, id2 = self.w.pake_table[int(parts[1])]
         transcript = b"/".join(sorted([self.out, msg]))
-        if theirs == mine:
+        # passwords/ids may be symbolic (SymBytes): the comparison then forks under the solver
+        same = bool(self.pw == pw2) and bool(self.id == id2)
+        if same:
             return hashlib.sha256(b"K/" + transcript).digest()
         # different password/id: each side derives an unrelated key
         return hashlib.sha256(b"X/" + self.out + b"/" + transcript).digest()
@@ -317,6 +319,13 @@ class Client:
         self.w = WMOD.create(appid, "ws://relay.invalid:4000/v1", self.clock, versions=versions or {},
                              dilation=dilation, **kw)
         self.boss = self.w._boss
+        self.closed_calls = 0
+        _orig_closed = self.w.closed
+
+        def _count_closed(result):
+            self.closed_calls += 1
+            return _orig_closed(result)
+        self.w.closed = _count_closed     # observation only: Boss calls W.closed(result) once per closed notification
         self.rc = self.boss._RC
         self.side = self.boss._side
         self.svc = self.rc._connector
@@ -431,6 +440,7 @@ class World:
         self.nonce = 0
         self.rnd = 0
         self.pake_inputs = []
+        self.pake_table = {}
         self.logged = []        # twisted log.err / log.msg(isError) events during the run
         self.unhandled = []
         self._ctx = None
